@@ -52,16 +52,16 @@ def _worker(args):
 
 def run_pool(modname, shard_descs, t_end):
     import multiprocessing as mp
-    from concurrent.futures import ProcessPoolExecutor
     total = Result()
     errors = []
     if NPROC <= 1 or len(shard_descs) <= 1:
         outs = [_worker((modname, d, t_end)) for d in shard_descs]
     else:
+        # multiprocessing.Pool, not ProcessPoolExecutor: in CPython 3.12.1 the executor's max_tasks_per_child
+        # never replaces retired workers (gh-115634) and a run with many shards hangs.
         ctx = mp.get_context('forkserver')
-        with ProcessPoolExecutor(max_workers=min(NPROC, len(shard_descs)), mp_context=ctx,
-                                 max_tasks_per_child=40) as ex:
-            outs = list(ex.map(_worker, [(modname, d, t_end) for d in shard_descs]))
+        with ctx.Pool(processes=min(NPROC, len(shard_descs)), maxtasksperchild=40) as pool:
+            outs = pool.map(_worker, [(modname, d, t_end) for d in shard_descs], chunksize=1)
     for o, d in zip(outs, shard_descs):  # shard order: deterministic merge
         if o[0] == 'ok':
             for g in o[1].fail_groups.values():
